@@ -7,6 +7,9 @@ import FemtoVerif.Model.Trench
 import Mathlib.Topology.MetricSpace.Pseudo.Defs
 import Mathlib.Tactic.Linarith
 import Mathlib.Tactic.Ring
+import Mathlib.Analysis.Normed.Affine.Convex
+import Mathlib.Analysis.Convex.Segment
+import Mathlib.Tactic.FieldSimp
 import Mathlib.Algebra.Order.Field.Rat
 
 set_option linter.unusedSimpArgs false
@@ -90,6 +93,41 @@ theorem rounded_disjoint {W B₀ B₁ : Set E} {bridge waist rc ε : ℝ}
   linarith
 
 end metric
+
+/-! ### the separation hypothesis across a straight guide -/
+section line
+variable {E : Type} [NormedAddCommGroup E] [NormedSpace ℝ E]
+
+/-- **the separation hypothesis holds across a straight guide**: if the guide contains the whole line `φ = c` (a straight
+guide that crosses the neighbourhood of both blocks) and the two raw blocks lie on opposite sides of it, then between any
+point of one and any point of the other there is a guide point on the way -/
+theorem hsep_of_line (φ : E →ₗ[ℝ] ℝ) (c : ℝ) {W B₀ B₁ : Set E} (hW : {p | φ p = c} ⊆ W)
+    (h0 : ∀ b ∈ B₀, c < φ b) (h1 : ∀ b ∈ B₁, φ b < c) :
+    ∀ b₀ ∈ B₀, ∀ b₁ ∈ B₁, ∃ m ∈ W, dist b₀ m + dist m b₁ = dist b₀ b₁ := by
+  intro b₀ hb₀ b₁ hb₁
+  have p0 := h0 b₀ hb₀
+  have p1 := h1 b₁ hb₁
+  have hden : 0 < φ b₀ - φ b₁ := by linarith
+  set t : ℝ := (φ b₀ - c) / (φ b₀ - φ b₁) with ht
+  have ht0 : 0 ≤ t := div_nonneg (by linarith) hden.le
+  have ht1 : t ≤ 1 := by rw [ht, div_le_one hden]; linarith
+  refine ⟨AffineMap.lineMap b₀ b₁ t, hW ?_, ?_⟩
+  · show φ (AffineMap.lineMap b₀ b₁ t) = c
+    rw [AffineMap.lineMap_apply_module]
+    simp only [map_add, map_smul, smul_eq_mul]
+    rw [ht]; field_simp; ring
+  · exact dist_add_dist_of_mem_segment (lineMap_mem_segment ℝ b₀ b₁ ⟨ht0, ht1⟩)
+
+/-- **blocks on opposite sides of a straight guide do not overlap**: they stay `bridge + 2·waist − 2ε` apart -/
+theorem straight_guide_blocks_apart (φ : E →ₗ[ℝ] ℝ) (c : ℝ) {W B₀ B₁ : Set E} {bridge waist rc ε : ℝ}
+    (hW : {p | φ p = c} ⊆ W)
+    (hraw₀ : ∀ b ∈ B₀, ∀ w ∈ W, adjBridge bridge waist rc - ε ≤ dist b w)
+    (hraw₁ : ∀ b ∈ B₁, ∀ w ∈ W, adjBridge bridge waist rc - ε ≤ dist b w)
+    (h0 : ∀ b ∈ B₀, c < φ b) (h1 : ∀ b ∈ B₁, φ b < c) :
+    ∀ p ∈ dilate B₀ rc, ∀ q ∈ dilate B₁ rc, bridge + 2 * waist - 2 * ε ≤ dist p q :=
+  rounded_apart hraw₀ hraw₁ (hsep_of_line φ c hW h0 h1)
+
+end line
 
 /-! ### numbering -/
 section order
